@@ -215,6 +215,8 @@ class C05Scenario(ChangeScenario):
                     clause='one-cause', got=reason, want=sorted(allowed)))
             if kind['on'] in ('create', 'update', 'delete') and kind['on'] != reason:
                 out.append(self.viol(env, 'kind-mismatch', f"t={t}: {kind['on']} handler {hid} invoked for reason {reason}", clause='exclusive'))
+            if kind['on'] == 'resume' and reason == 'create':
+                out.append(self.viol(env, 'kind-mismatch', f"t={t}: resume handler {hid} invoked in a creation cycle (creation never mixes with resuming)", clause='exclusive'))
         return out
 
 
